@@ -394,6 +394,7 @@ impl ViCut {
 			// (Motions that merely cannot go further, like 'cl' on an empty line, still open the text.)
 			let can_fail = |m: &MotionCmd| matches!(m.1,
 				Motion::CharSearch(..) |
+				Motion::WordMotion(..) |
 				Motion::LineUp |
 				Motion::LineDown |
 				Motion::ToDelimMatch |
